@@ -123,6 +123,18 @@ def append_iteration(prog, res):
     per_frame = {"image_width": "width", "image_length": "height", "rows_per_strip": "height",
                  "sample_format": "type", "strip_byte_counts": None}
     seen = 0
+    # the frame cursor: the local VideoFrame pointer that is initialised from
+    # the `frames` parameter and re-assigned from the stepping lambda
+    frames_p = f.params[0]["id"] if f.params else None
+    cursor = None
+    for b, i, s in f.all_stmts():
+        for lv, op, rhs, w in ir.writes_of(s):
+            r0 = ir.strip(rhs)
+            if lv.get("k") == "var" and lv.get("r") == "VideoFrame" and isinstance(r0, dict) and \
+                    r0.get("k") == "var" and r0.get("id") == frames_p:
+                cursor = lv
+    if cursor is None:
+        raise AnalysisBroken("Tiff::append: frame cursor (initialised from the frames parameter) not found")
     for b, i, s in f.all_stmts():
         for c in ir.calls_in(s):
             nm = (c.get("fn") or "").split("::")[-1]
@@ -131,8 +143,8 @@ def append_iteration(prog, res):
                 arg = c["args"][0] if c.get("args") else None
                 roots = [y for y in ir.walk(arg) if y.get("k") == "var"]
                 fields = [y["f"] for y in ir.walk(arg) if y.get("k") == "mem"]
-                ok = any(v["n"] == "cur" for v in roots) and per_frame[nm] in fields
-                inst = "Tiff::append: %s(cur->...%s)" % (nm, per_frame[nm])
+                ok = any(v["id"] == cursor["id"] for v in roots) and per_frame[nm] in fields
+                inst = "Tiff::append: %s(<frame cursor>->...%s)" % (nm, per_frame[nm])
                 if ok:
                     res.oblige("R-FRAME-TAGS", inst, True, ir.render(arg), f.loc(s))
                 else:
